@@ -99,9 +99,27 @@ def last_error_call_args(script):
     return False
 
 
+def lens_call_args(script):
+    """a call with an argument that is a lens on a variable (x.$.path): its resolution can fail catchably"""
+    for n in walk(parse_sexp(script)):
+        if len(n) >= 4 and n[0] == "(" and n[1] == "call":
+            for a in n[2:]:
+                if isinstance(a, list) and a and a[0] == "[":
+                    for x in a[1:]:
+                        if isinstance(x, str) and ".$." in x and not x.startswith("%"):
+                            return True
+    return False
+
+
+PENDING_STATE_RE = re.compile(r"state from (previous|current) `Call\(RequestSentBy\(PeerId\(.*is incompatible with expected", re.S)
+
+
 def classify(prop, script, failure):
     """key of a known finding for this failure, or None (= a new violation)"""
     if prop == "C04":
+        if failure.get("code") == code_of("TraceError") and PENDING_STATE_RE.search(failure.get("msg") or "") \
+                and lens_call_args(script):
+            return "pending-request-then-catchable-argument-error"
         if failure.get("code") == code_of("InstructionParametersMismatch") and "argument_hash" in (failure.get("msg") or "") \
                 and last_error_call_args(script):
             return "last-error-peer-id-argument"
